@@ -175,6 +175,33 @@ impl VerifProtocol {
             .expect("channel has room");
     }
 
+    /// Like [`Self::inject_connection_established`], but the connection's command channel has
+    /// room for only `capacity` (>= 1) commands: when several requests wait for the dial, the
+    /// first `capacity` `open_substream` calls succeed and the rest fail with `ChannelClogged`.
+    pub fn inject_connection_established_with_capacity(&mut self, peer: PeerId, capacity: usize) {
+        let id = ConnectionId::from(self.next_connection);
+        self.next_connection += 1;
+        let (tx, rx) = channel(capacity.max(1));
+        let sender = ConnectionHandle::new(id, tx.clone());
+        self.connections.insert(
+            peer,
+            VerifConnection {
+                id,
+                tx,
+                rx: Some(rx),
+            },
+        );
+        let address: Multiaddr = "/ip4/10.9.9.9/tcp/9999".parse().expect("valid address");
+        self.tx
+            .try_send(InnerTransportEvent::ConnectionEstablished {
+                peer,
+                connection: id,
+                endpoint: Endpoint::dialer(address, id),
+                sender,
+            })
+            .expect("channel has room");
+    }
+
     /// Report that the connection to `peer` was closed.
     pub fn inject_connection_closed(&mut self, peer: PeerId) {
         if let Some(connection) = self.connections.remove(&peer) {
